@@ -189,6 +189,7 @@ def main():
         vio_lines.append('  # kind=%s mech=%s facts=%s' % (w['kind'], json.dumps(w.get('mech'), default=repr)[:200],
                                                           json.dumps(w.get('facts'), ensure_ascii=True, default=repr)[:400]))
     n_unknown = len(unknown)
+    groups = collections.Counter(json.dumps([w['kind'], w.get('mech')], sort_keys=True, default=repr)[:300] for w in unknown)
     wall = time.time() - t0
     verdict = 'violated' if n_unknown else ('inconclusive' if inconclusive else 'held')
     evidence = {
@@ -227,8 +228,13 @@ def main():
     for l in lines:
         print(l)
     if n_unknown:
-        for l in vio_lines:
+        for l in vio_lines[:24]:
             print(l)
+        if len(vio_lines) > 24:
+            print('  ... %d more replay files under replays/%s/' % ((len(vio_lines) - 24) // 2, prop))
+        print('  violation groups (kind, mechanism -> count):')
+        for g, n in groups.most_common(20):
+            print('    %6d  %s' % (n, g))
         print('%s: VIOLATED (%d refuting executions not covered by known_findings.json)' % (prop, n_unknown))
         return 1
     if inconclusive:
